@@ -2,6 +2,7 @@ package simsync
 
 import (
 	"runtime"
+	"slices"
 	"strconv"
 	"strings"
 	"unsafe"
@@ -89,12 +90,18 @@ func (p *Pool) length() int { return len(p.items) }
 //
 //go:norace
 func (p *Pool) dup() bool {
+	n := len(p.items)
+	if n < 2 {
+		return false
+	}
+	ptrs := make([]uintptr, n)
 	for i := range p.items {
-		pi := (*[2]unsafe.Pointer)(unsafe.Pointer(&p.items[i]))[1]
-		for j := i + 1; j < len(p.items); j++ {
-			if pj := (*[2]unsafe.Pointer)(unsafe.Pointer(&p.items[j]))[1]; pi == pj && pi != nil {
-				return true
-			}
+		ptrs[i] = uintptr((*[2]unsafe.Pointer)(unsafe.Pointer(&p.items[i]))[1])
+	}
+	slices.Sort(ptrs)
+	for i := 1; i < n; i++ {
+		if ptrs[i] == ptrs[i-1] && ptrs[i] != 0 {
+			return true
 		}
 	}
 	return false
